@@ -480,3 +480,76 @@ func fromROR2Tree(s *corpus.Schema, t corpus.TypeExpr, tree any, o DecodeOpts, p
 	}
 	return nil, fmt.Errorf("bad type")
 }
+
+// ROR2KeyOrders scans text and returns, for every map in it (outermost first, depth-first), the sequence of its
+// decoded keys in the order they appear — an order-aware token scan, not a re-parse into a map.
+func ROR2KeyOrders(text string, fl Flavour) ([][]string, error) {
+	p := &ror2Parser{in: text, fl: fl}
+	var orders [][]string
+	var walk func() error
+	walk = func() error {
+		switch {
+		case strings.HasPrefix(p.in[p.pos:], "List("):
+			p.pos += 5
+			if p.peek() == ')' {
+				p.pos++
+				return nil
+			}
+			for {
+				if err := walk(); err != nil {
+					return err
+				}
+				switch p.peek() {
+				case ',':
+					p.pos++
+				case ')':
+					p.pos++
+					return nil
+				default:
+					return fmt.Errorf("expected , or ) at %d in %q", p.pos, p.in)
+				}
+			}
+		case p.peek() == '(':
+			p.pos++
+			idx := len(orders)
+			orders = append(orders, nil)
+			if p.peek() == ')' {
+				p.pos++
+				return nil
+			}
+			for {
+				k, err := p.token(true)
+				if err != nil {
+					return err
+				}
+				orders[idx] = append(orders[idx], k)
+				if p.peek() != ':' {
+					return fmt.Errorf("expected : at %d in %q", p.pos, p.in)
+				}
+				p.pos++
+				if err := walk(); err != nil {
+					return err
+				}
+				switch p.peek() {
+				case ',':
+					p.pos++
+				case ')':
+					p.pos++
+					return nil
+				default:
+					return fmt.Errorf("expected , or ) at %d in %q", p.pos, p.in)
+				}
+			}
+		default:
+			_, err := p.token(false)
+			return err
+		}
+	}
+	if err := walk(); err != nil {
+		return nil, err
+	}
+	if p.pos != len(p.in) {
+		return nil, fmt.Errorf("trailing text at %d in %q", p.pos, text)
+	}
+	return orders, nil
+}
